@@ -44,7 +44,7 @@ TIERS = {
               "required_probes": ["c03.level_transition", "c03.odd_increment_probed", "c03.even_increment_seen",
                                   "c03.telescoping_checked", "c03.adaptive_run", "c03.sde_run", "c03.nd_run",
                                   "c03.nd_telescoping_checked", "c03.nd_odd_increment_probed", "c03.nd_odd_coordinate_seen"]},
-    "thorough": {"worlds": 8000, "wall": 3300, "shrink_budget": 100,
+    "thorough": {"worlds": 60000, "wall": 3300, "shrink_budget": 100,
                  "required_probes": ["c03.level_transition", "c03.odd_increment_probed", "c03.even_increment_seen",
                                      "c03.telescoping_checked", "c03.adaptive_run", "c03.sde_run", "c03.level_3"]},
 }
